@@ -184,6 +184,127 @@ def find_user_stops(k: int, w0: bool, w1: bool, w2: bool, fin: int) -> bool:
     return ok
 
 
+# ------------------------------------------------------------------------------------------------
+# octets in, octets out: the provider side is the real acceptor loop over the real provider
+# ------------------------------------------------------------------------------------------------
+
+EXPL_LE, EXPL_BE = '1.2.840.10008.1.2.1', '1.2.840.10008.1.2.2'
+LIVE_TS = {1: EXPL_LE, 3: EXPL_BE, 5: '1.2.840.10008.1.2'}
+
+
+def _split_messages(wire):
+    """P-DATA-TF octets written by the library -> list of Sent (one per DIMSE message, by last-fragment flags)"""
+    from vt.harness.svc import Sent
+    from pynetdicom2 import pdu
+    out, cur, have_cmd_last, expect_data = [], [], False, False
+    for raw in wire:
+        if raw[0] != 4:
+            continue
+        p = pdu.PDataTfPDU.decode(raw)
+        cur.append(p)
+        for v in p.data_value_items:
+            hdr = v.data_value[0]
+            if hdr == 3:
+                s_ = Sent(cur)
+                expect_data = s_.us(0x0800) != 0x0101
+                if not expect_data:
+                    out.append(s_)
+                    cur = []
+            elif hdr == 2:
+                out.append(Sent(cur))
+                cur = []
+    return out, not cur
+
+
+def _live_find(seq, packed, k, mid):
+    """one association whose peer got the FIND class accepted on contexts 1 (explicit LE), 3 (explicit BE) and 5
+    (implicit LE); queries are sent on the contexts listed in seq; -> list of per-query results"""
+    from vt import sim
+    from vt.harness import live as L, assoc as A
+    from pynetdicom2 import applicationentity, pdu
+    L.install(sim.SimClock(1000))
+    seen = []
+
+    class Entity(applicationentity.AE):
+        def __init__(self):
+            applicationentity.AEBase.__init__(self, [EXPL_LE, EXPL_BE, '1.2.840.10008.1.2'], 16384)
+            self.supported_scp.update({ROOT: sopclass.qr_find_scp})
+
+        def on_receive_find(self, ctx, ds):
+            seen.append((ctx.id, str(ctx.supported_ts), ds))
+            return iter([(pool(i), statuses.Status(PEND[i % 2], dm.CFindRSPMessage)) for i in range(k)])
+    ae = Entity()
+    la = L.LiveAcceptor(ae, 'PEER')
+    rq = pdu.AAssociateRqPDU('SCP', 'PEER', [pdu.ApplicationContextItem(A.APP_CTX)] + [
+        pdu.PresentationContextItemRQ(cid, pdu.AbstractSyntaxSubItem(ROOT), [pdu.TransferSyntaxSubItem(ts)])
+        for cid, ts in sorted(LIVE_TS.items())] + [A.user_info(16384)])
+    la.deliver(rq.encode())
+    la.establish()
+    results = []
+    for j, cid in enumerate(seq):
+        ts = pydicom.uid.UID(LIVE_TS[cid])
+        m = dm.CFindRQMessage()
+        m.message_id = mid + j
+        m.sop_class_uid = ROOT
+        m.priority = 0
+        m.data_set = dsutils.encode(query(), ts.is_implicit_VR, ts.is_little_endian)
+        m.set_length()
+        pdus = list(m.encode(cid, 16384))
+        if packed:
+            pdus = [pdu.PDataTfPDU([v for p in pdus for v in p.data_value_items])]
+        before = len(la.wire())
+        la.deliver(b''.join(p.encode() for p in pdus))
+        la.serve_one()
+        msgs, whole = _split_messages(la.wire()[before:])
+        results.append((cid, ts, msgs, whole))
+    return results, seen, la
+
+
+@cond(bounds='C-FIND provider behind the REAL acceptor loop and provider (octets in, octets out): the FIND class is accepted '
+             'on three contexts with different transfer syntaxes (1 explicit LE, 3 explicit BE, 5 implicit LE); 1..3 '
+             'queries on one association on contexts chosen by symbolic selectors, each query sent one PDV per PDU or '
+             'with command and identifier packed into ONE P-DATA-TF (symbolic); k = 0..3 matches (symbolic). Every '
+             'query must reach the handler unchanged with the context it arrived on, and its k pending responses + 1 '
+             'final response must come back on that context, in that context\'s transfer syntax, in order',
+      timeout=300)
+def find_over_live_acceptor(c0: int, c1: int, c2: int, n: int, packed: bool, k: int) -> bool:
+    """
+    pre: 0 <= c0 <= 2 and 0 <= c1 <= 2 and 0 <= c2 <= 2 and 1 <= n <= 3 and 0 <= k <= 3
+    post: _
+    """
+    from vt import sim
+    n, k = pick(n, 1, 3), pick(k, 0, 3)
+    seq = [(1, 3, 5)[pick(c, 0, 2)] for c in (c0, c1, c2)][:n]
+    packed = bool(pick(int(packed), 0, 1))
+    with sim._no_tracing():
+        ok = _find_over_live(seq, packed, k)
+    deep(ok and n == 3 and packed and k == 2 and seq[0] != seq[1])
+    return ok
+
+
+def _find_over_live(seq, packed, k):
+    results, seen, la = _live_find(seq, packed, k, 40)
+    ok = la.pump.err is None and len(seen) == len(seq) and la.errors == []
+    want_q = dsutils.encode(query(), True, True)
+    for j, (cid, ts, msgs, whole) in enumerate(results):
+        ok = ok and whole and len(msgs) == k + 1
+        if not ok:
+            return False
+        hcid, hts, hds = seen[j]
+        ok = ok and hcid == cid and hts == str(ts) and dsutils.encode(hds, True, True) == want_q
+        for i, s_ in enumerate(msgs):
+            ok = ok and s_.wellformed and s_.one_context() == cid and s_.command_field == 0x8020 \
+                and s_.responded_to == 40 + j
+            if i < k:
+                ok = ok and s_.status == PEND[i % 2] and s_.data is not None
+                if ok:
+                    got = dsutils.decode(s_.data, ts.is_implicit_VR, ts.is_little_endian)
+                    ok = dsutils.encode(got, True, True) == dsutils.encode(pool(i), True, True)
+            else:
+                ok = ok and s_.status == 0 and s_.data is None
+    return ok
+
+
 class WrapAssoc(object):
     def __init__(self, ua, sop):
         self.ua = ua
@@ -238,3 +359,13 @@ def c_find_wrapper(k: int, w0: bool, w1: bool, lazy: bool) -> bool:
         ok = ok and got[k][0] is None and int(got[k][1]) == 0
     deep(ok and k == 2 and lazy)
     return ok
+
+
+def explain(cname, args, famv):
+    if cname == 'find_over_live_acceptor':
+        seq = [(1, 3, 5)[c] for c in (args['c0'], args['c1'], args['c2'])][:args['n']]
+        results, seen, la = _live_find(seq, args['packed'], args['k'], 40)
+        return 'queries on contexts %r (packed=%r, %d matches): handler saw %r; responses per query: %r; provider %r %r' % (
+            seq, args['packed'], args['k'], [(c, t) for c, t, _ in seen],
+            [[(m.one_context(), m.status) for m in msgs] for _, _, msgs, _ in results], la.pump.err, la.errors)
+    return ''
